@@ -352,6 +352,31 @@ func r16_3(c *Ctx) {
 			httpErrs = append(httpErrs, call)
 		}
 	})
+	// the optional logger: Server.Logger may be unset and may return nil, so every call on the logger value is
+	// dominated by a test that this very value is non-nil (a nil dereference in front of http.Error loses the 500)
+	{
+		unguarded := ""
+		nLog := 0
+		eachInstrDeep(fn, func(in ssa.Instruction) {
+			call, ok := in.(*ssa.Call)
+			if !ok {
+				return
+			}
+			callee := call.Call.StaticCallee()
+			if callee == nil || callee.Signature.Recv() == nil || !typeIs(callee.Signature.Recv().Type(), "log/slog", "Logger") || len(call.Call.Args) == 0 {
+				return
+			}
+			nLog++
+			recv := call.Call.Args[0]
+			if !guardedByNil(call.Parent(), call.Block(), func(v ssa.Value) bool { return v == recv || sameValue(v, recv) }, false) {
+				unguarded = P.ipos(call)
+			}
+		})
+		if nLog > 0 {
+			c.check(unguarded == "", name+":logger-nil-guarded", P.pos(fn.Pos()), "every call on the optional logger is guarded by a nil test of the logger value itself",
+				"a call on the optional logger (at "+unguarded+") is not guarded by a nil test of that logger value (testing Server.Logger, the factory, is not enough: it may return nil): ServeHTTP panics before it answers, so a refused subscription or a failed upgrade gets no 500")
+		}
+	}
 	// the subscription is built by getSubscription, or in place around the OnSession call
 	var on *ssa.Call
 	eachInstrDeep(fn, func(in ssa.Instruction) {
@@ -414,6 +439,41 @@ func r16_3(c *Ctx) {
 					}
 				}
 				return cont
+			})
+			// a call deferred before the verdict runs when the rejected request returns
+			eachInstr(fn, func(in ssa.Instruction) {
+				d, ok := in.(*ssa.Defer)
+				if !ok || !reachesAvoiding(afterInstr(d), ifi, nil, nil) {
+					return
+				}
+				touches := false
+				for _, a := range d.Call.Args {
+					if isW(a) || upSess(a) {
+						touches = true
+					}
+				}
+				if d.Call.IsInvoke() && isW(d.Call.Value) {
+					touches = true
+				}
+				if mc, ok := d.Call.Value.(*ssa.MakeClosure); ok {
+					for _, b := range mc.Bindings {
+						if isW(b) || upSess(b) {
+							touches = true
+						}
+						// a captured variable holding the session
+						if a, ok := b.(*ssa.Alloc); ok {
+							stored, _, _ := cellStores(a)
+							for _, v := range stored {
+								if isW(v) || upSess(v) {
+									touches = true
+								}
+							}
+						}
+					}
+				}
+				if touches {
+					wrote = true
+				}
 			})
 		}
 		var at ssa.Instruction = on
@@ -1344,6 +1404,78 @@ func r05_1(c *Ctx) {
 // ---------------------------------------------------------------------------
 // C20
 
+// isSplitOrForwarder: v is splitFunc itself, or a function (literal) that calls splitFunc with its own two
+// parameters and returns that call's three results unchanged on every path (it may do other things with
+// them, e.g. adjust the BOM option; those are judged by R01.10).
+func isSplitOrForwarder(P *Program, v ssa.Value) bool {
+	sf := P.Fn("parser.splitFunc")
+	if sf == nil {
+		return false
+	}
+	v = stripConvAll(v)
+	if mc, ok := v.(*ssa.MakeClosure); ok {
+		v = mc.Fn
+	}
+	f, ok := v.(*ssa.Function)
+	if !ok {
+		return false
+	}
+	if t := boundMethodTarget(f); t != nil {
+		f = t // `p.split` passed as a method value
+	}
+	if f == sf {
+		return true
+	}
+	call := splitForwardCall(P, f)
+	return call != nil
+}
+
+// splitForwardCall returns the call of splitFunc whose results f forwards (nil when f is not a forwarder).
+func splitForwardCall(P *Program, f *ssa.Function) *ssa.Call {
+	sf := P.Fn("parser.splitFunc")
+	if sf == nil || f.Blocks == nil || len(f.Params) < 2 || len(f.Params) > 3 {
+		return nil
+	}
+	params := f.Params[len(f.Params)-2:] // a method's receiver comes first
+	var calls []*ssa.Call
+	eachInstr(f, func(in ssa.Instruction) {
+		if call, ok := in.(*ssa.Call); ok && call.Call.StaticCallee() == sf {
+			calls = append(calls, call)
+		}
+	})
+	if len(calls) != 1 {
+		return nil
+	}
+	call := calls[0]
+	if len(call.Call.Args) != 2 || call.Call.Args[0] != ssa.Value(params[0]) || call.Call.Args[1] != ssa.Value(params[1]) {
+		return nil
+	}
+	rets := returnsOf(f)
+	if len(rets) == 0 {
+		return nil
+	}
+	for _, r := range rets {
+		if len(r.Results) != 3 {
+			return nil
+		}
+		for i, res := range r.Results {
+			e, ok := res.(*ssa.Extract)
+			if !ok || e.Tuple != ssa.Value(call) || e.Index != i {
+				return nil
+			}
+		}
+	}
+	return call
+}
+
+// call0Arg: the first argument (receiver of a static method call) of a call instruction, nil otherwise.
+func call0Arg(in ssa.Instruction) ssa.Value {
+	if call, ok := in.(*ssa.Call); ok && len(call.Call.Args) > 0 {
+		return call.Call.Args[0]
+	}
+	return nil
+}
+
 func r20_1(c *Ctx) {
 	P := c.P
 	// Parser.Buffer forwards to the scanner
@@ -1373,8 +1505,9 @@ func r20_1(c *Ctx) {
 	})
 	if sc != nil {
 		eachInstrDeep(nw, func(in ssa.Instruction) {
-			if call, ok := isStaticCall(in, "(*bufio.Scanner).Split"); ok && call.Call.Args[0] == ssa.Value(sc) {
-				if f, ok := stripConvAll(call.Call.Args[1]).(*ssa.Function); ok && f == P.Fn("parser.splitFunc") {
+			_, viaField := isFieldLoad(call0Arg(in), "parser.Parser", "inputScanner")
+			if call, ok := isStaticCall(in, "(*bufio.Scanner).Split"); ok && (call.Call.Args[0] == ssa.Value(sc) || viaField) {
+				if isSplitOrForwarder(P, call.Call.Args[1]) {
 					splitOK = true
 				}
 			}
@@ -1780,6 +1913,29 @@ func init() {
 	add("C17", "R03.6 is claimed here too: \"that Publish returns [the Put error]\" rests on Publish returning what arrives on its reply channel.", "R03.6")
 	add("C05", "R06.1 is claimed here too: a subscriber's channel closed twice panics Joe's goroutine and with it the server process.", "R06.1")
 	add("C20", "R11.2 is claimed here too: after ErrTooLong the attempt ends (and is retried from a fresh request); re-reading the half-consumed body delivers a truncated event.", "R11.2")
+	for _, id := range []string{"C03", "C04", "C05", "C06", "C17"} {
+		add(id, "R03.10 no variable that lives across iterations of Joe's loop (other than the replayer variable) flows into a Send, a replayer call, a reply to Subscribe/Publish, the subscribers map or a branch of a later request (a hoisted `err` makes a later subscriber inherit an earlier one's replay error; a reused topics slice rewrites the topics of messages the replayer already stores).", "R03.10")
+	}
+	add("C01", "R10.1/R20.1 are claimed here too: a Connection seeds each response's interpreter with the last event ID it has seen (the events' LastEventID continues across reconnects), and a ReadConfig without a size keeps the documented 64 KiB default (events above the scanner's initial 4 KiB still arrive).", "R10.1", "R20.1")
+	add("C05", "R12.5/R12.6/R18.5 are claimed here too: a client that is cut repeatedly keeps reconnecting only if every successful connection resets the retry budget, and a resumed client sees the buffer in publish order only if a growing ring is copied oldest part first.", "R12.5", "R12.6", "R18.5")
+	add("C04", "R16.4 is claimed here too: a client resuming through the Server reaches Joe with the ID it presented only if the subscription built around OnSession keeps it.", "R16.4")
+	add("C07", "R03.2/R03.6 are claimed here too: a buffered request channel lets a Publish be accepted without ever being handled once Joe stops.", "R03.2", "R03.6")
+	add("C19", "R02.5 is claimed here too: a decoded message (and its clones and stored copies) must own its bytes.", "R02.5")
+	add("C06", "R04.2 is claimed here too: a nil message handed to the subscribers' writers (Put failed and its nil result was installed) panics inside Joe's goroutine.", "R04.2")
+	add("C03", "R06.4 is claimed here too: Subscribe returns only once Joe has released the subscription; a return while Joe still holds it lets the fan-out reach a subscriber that is gone for its caller.", "R06.4")
+	for _, id := range []string{"C20", "C12", "C11"} {
+		add(id, "R20.6 the reconnection code calls no random-number function that panics on a non-positive argument without having tested the argument (the interval it is computed from is set by the server's retry field).", "R20.6")
+	}
+	add("C11", "R12.2 is claimed here too: every Connect call starts with a fresh backoff controller, so retries already used (or time already elapsed) by an earlier call or since the connection was created do not shorten this call's schedule.", "R12.2")
+	add("C06", "R07.4 is claimed here too: \"Joe does not panic\" for every interleaving with Shutdown rests on the close of j.done being protected against a second, concurrent close.", "R07.4")
+	for _, id := range []string{"C04", "C05", "C08", "C09"} {
+		add(id, "R03.7 is claimed here too: the replayers choose what to replay with the same topicsIntersect as the live fan-out.", "R03.7")
+	}
+	add("C13", "R01.7 is claimed here too: the event flushed at a clean end of stream must carry the type (and ID) collected for it, like every other event, or it reaches the wrong callbacks.", "R01.7")
+	add("C10", "R01.7 is claimed here too: the event flushed at a clean end of stream carries the last event ID, which is what the next reconnect presents.", "R01.7")
+	add("C15", "R02.5 is claimed here too: the decoded message owns its strings; a view of the caller's buffer changes when the buffer is reused, and the round trip no longer reproduces the fields.", "R02.5")
+	add("C05", "R02.5/R19.2 are claimed here too: the stored last event ID must not point into the scanner's buffer (the next read rewrites it and the reconnect resumes from the wrong event), and messages kept by the replayer must not share chunk storage with later clones.", "R02.5", "R19.2")
+	add("C10", "R02.5 is claimed here too: the last event ID kept for the reconnect must own its bytes.", "R02.5")
 	add("C13", "R01.3/R01.4 are claimed here too: routing by type presupposes that the interpreter gives every event its own type (reset at dispatch) and dispatches every event that has one.", "R01.3", "R01.4")
 }
 
